@@ -15,7 +15,7 @@ TIMES += [datetime(2021, 11, 7, 6, 30, tzinfo=UTC), datetime(2021, 10, 31, 1, 30
 EPOCH = datetime(1970, 1, 1, tzinfo=UTC)
 TIMES += [EPOCH]  # the epoch itself: its timestamp 0.0 is falsy
 OFFSETS = [UTC, timezone(timedelta(hours=5, minutes=45)), timezone(timedelta(hours=-8)), timezone(timedelta(hours=10, minutes=30))]
-MEAS = ["_default", "m1", "m2", "a,b", "mé", "m1 "]  # incl. a name that differs from another only by trailing white space
+MEAS = ["_default", "m1", "m2", "a,b", "mé", "m1 ", "M1"]  # incl. a name that differs from another only by trailing white space
 TKEYS = ["a", "b", "t x", "a.b"]  # "a.b": select("tags.a.b") must not be read as key "a"
 TVALS = [None, "", "x", "X", "xy", "x\ny", "a,b", "x\u2028y", "x\x1dy\x85", '"q', "f_1"]  # incl. a value that looks like a (compact) field key
 FKEYS = ["a", "f", "_t"]
@@ -26,7 +26,7 @@ REFLAGS = [0, 2, 16]  # none, IGNORECASE, DOTALL
 
 
 # sampling weights: common values repeated so that equality leaves hit often, rare/awkward values still occur
-W_MEAS = ["m1", "m1", "m1", "_default", "_default", "a,b", "m2", "mé", "m1 "]
+W_MEAS = ["m1", "m1", "m1", "_default", "_default", "a,b", "m2", "mé", "m1 ", "M1"]
 W_TVALS = [None, "", "x", "x", "x", "X", "xy", "xy", "x\ny", "a,b", "x\u2028y", "x\x1dy\x85", '"q', "f_1"]  # incl. a leading quote character and characters str.splitlines() breaks on but csv does not
 W_FVALS = [None, 0, -0.0, 1, 1, 1, 2, 2, -1.5, 2.0, math.inf]
 W_TKEYS = ["a", "a", "a", "a", "a", "a", "b", "b", "t x", "t x", "a.b"]
@@ -91,6 +91,8 @@ def leaf(draw, time_pool=TIMES, allow_maps=True, allow_noop=True):
             rhs = draw(times(time_pool)).astimezone(draw(offsets()))
             if draw(st.integers(0, 3)) == 0:
                 rhs = rhs + timedelta(microseconds=draw(st.sampled_from([-1, 1])))
+        elif attr == "meas" and mapped and path[-1][1] == "upper":
+            rhs = draw(st.sampled_from(["M1", "M1", "M1 ", "MÉ", "m1"]))  # what upper() can produce: names that differ by case only meet here
         elif attr == "meas":
             rhs = draw(st.sampled_from(W_MEAS + ["", "M1"]))
         elif attr == "tag":
